@@ -12,6 +12,7 @@ from ..index import AnalysisError
 from ..kernel import OutsideFragment, decide, parse, rename
 from ..report import Ctx
 from . import family_e
+from ..astutil import clone
 
 PROP = "C13"
 REF = "antismash/common/hmmscan_refinement.py"
@@ -124,8 +125,7 @@ def r13_2(ctx: Ctx) -> None:
     class Sub(ast.NodeTransformer):
         def visit_Name(self, node):
             return env.get(node.id, node)
-    import copy
-    expr = Sub().visit(copy.deepcopy(expr))
+    expr = Sub().visit(clone(expr))
     try:
         ok, cex, n = decide(rename(expr, m2), parse("max(0, min(a_e, b_e) - max(a_s, b_s))"), pre=pre)
         ctx.ob("R13.2", CP, ret, "hsp_overlap_size", "kernel", ok, "the overlap size is the size of the intersection (0 if disjoint)",
